@@ -66,12 +66,6 @@ Proof.
 Qed.
 
 (* every history *)
-Fixpoint sp_run (stale:bool) (pol:nat) (mc:machine) (c:conf) (l:list op) : list (list titem * option (bool * bool) * list (list nat * list nat)) :=
-  match l with
-  | [] => []
-  | o :: t => let '(items, out, c') := sp_op_gen stale pol mc o c in (items, out, sp_snapshot mc c' []) :: sp_run stale pol mc c' t
-  end.
-
 Definition step_ok (spec:list titem * option (bool * bool) * list (list nat * list nat)) (got:list titem * list (list nat * list nat)) : Prop :=
   let '(items, out, snap) := spec in
   snd got = snap /\
